@@ -186,7 +186,7 @@ def assumptions():
         "a session is two well-formed texts given to two Changelog objects one after the other in one process; the "
         "statement quantifies over texts, so each of them has to satisfy it whatever was parsed before",
         "sweep character sets: package and distribution names [-+.0-9a-zA-Z] (deb-changelog(5); upper case as in "
-        "UNRELEASED), versions [A-Za-z0-9.+~-] and the epoch colon as '1:2' (also '1:2:3', '1:2:3-4', '1-2-3': further colons after an epoch and all hyphens but the last belong to the upstream version), urgency values and keys [-0-9a-zA-Z], change "
+        "UNRELEASED), versions [A-Za-z0-9.+~-] and the epoch colon as '1:2' (also '1:2:3', '1:2:3-4', '1-2-3': further colons after an epoch and all hyphens but the last belong to the upstream version), urgency values and keys [-0-9a-zA-Z], values of extra settings: printable ASCII without ',' (a value runs up to the next comma; '=' and ';' are ordinary characters of it), maintainer name and address: printable ASCII (further '<' and '>' included: the address is what stands between the LAST ' <' and the last '>' before the date), change "
         "text: printable ASCII U+0020..U+007E and 12 non-ASCII characters; other characters (control characters, line "
         "separators) are not well-formed changelog text and are not demanded",
     ]
@@ -400,6 +400,9 @@ def sweep_plan():
         ("urgency", ["a%sb"], word_chars),
         ("key", ["a%sb"], word_chars),
         ("change", ["  * x%sy"], [chr(cp) for cp in range(0x20, 0x7F)] + SWEEP_NON_ASCII),
+        # the value of an extra key=value setting (everything up to the next comma) and the maintainer part of the trailer
+        ("value", ["x%sy"], [chr(cp) for cp in range(0x21, 0x7F) if chr(cp) != ","] + SWEEP_NON_ASCII),
+        ("author", ["A%sB <a@b.c>", "A B <a%sb@c>"], [chr(cp) for cp in range(0x21, 0x7F)] + SWEEP_NON_ASCII),
     ]
 
 
@@ -415,6 +418,10 @@ def sweep_cases(component):
                 b = list(base)
                 if name == "key":
                     b[5] = [[x, "yes"]]
+                elif name == "value":
+                    b[5] = [["k", x]]
+                elif name == "author":
+                    b[7] = x
                 elif name == "change":
                     b[6] = [x]
                 else:
